@@ -25,6 +25,10 @@ Qed.
 Lemma is_reg_mode s t : st_mode s = st_mode t -> is_reg s = is_reg t.
 Proof. intros E. unfold is_reg, st_is_dir, is_special. rewrite E. reflexivity. Qed.
 
+(* AbsDest.is_node IS Hardlinks.hl_plain: neither directory nor symbolic link *)
+Lemma is_node_plain s : is_node s = hl_plain s.
+Proof. reflexivity. Qed.
+
 Lemma is_reg_plain s : is_reg s = true -> hl_plain s = true.
 Proof.
   unfold is_reg, hl_plain, st_is_dir. rewrite !andb_true_iff. intros [[H1 _] H2]. auto.
@@ -113,6 +117,9 @@ Proof. apply reset_spec_entry_shape. Qed.
 Lemma is_reg_f s : is_reg (f s) = is_reg s.
 Proof. apply is_reg_mode. apply f_shape. Qed.
 
+Lemma is_node_f s : is_node (f s) = is_node s.
+Proof. apply is_node_mode_eq. apply f_shape. Qed.
+
 Lemma fw_sorted : sorted l.
 Proof. exact (proj1 (proj1 (fw_wf_listing pmatch mapfn c Hshape Hdirs view Hwf))). Qed.
 
@@ -122,7 +129,7 @@ Proof.
   apply in_map_iff in Hin. destruct Hin as (sb' & E & Hsb'). inversion E; subst sb' bb. clear E.
   apply in_map_iff in Hsb'. destruct Hsb' as (s & <- & Hs).
   unfold is_hardlink in Hhl. apply andb_true_iff in Hhl. destruct Hhl as [Hreg Hln].
-  rewrite is_reg_f in Hreg. pose proof (is_reg_plain _ Hreg) as Hp.
+  rewrite is_node_f in Hreg. pose proof Hreg as Hp. rewrite is_node_plain in Hp.
   destruct (first_rep_some l s Hs Hp) as (r & Hr).
   assert (Efs : f s = if bytes_eqb r (st_path s) then set_linkname s [] else set_linkname s r).
   { unfold reset_spec_entry. rewrite Hp. cbn [negb]. rewrite Hr. reflexivity. }
@@ -144,18 +151,20 @@ Proof.
     - rewrite <- (keq_plain _ _ (proj1 Hkt)). exact Hpt.
     - rewrite <- (orig_rep_keq _ _ (proj1 Hks)), <- (orig_rep_keq _ _ (proj1 Hkt)). symmetry. exact Eot. }
   destruct Hcoh' as [Eb Em].
-  assert (Hregt : is_reg t = true).
-  { rewrite (is_reg_keq2 _ _ Hkt), <- (is_reg_mode _ _ Em), <- (is_reg_keq2 _ _ Hks). exact Hreg. }
+  assert (Hregt : is_reg t = is_reg s).
+  { rewrite (is_reg_keq2 _ _ Hkt), <- (is_reg_mode _ _ Em), <- (is_reg_keq2 _ _ Hks). reflexivity. }
+  assert (Hnt : is_node t = true) by (rewrite is_node_plain; exact Hpt).
   exists (f t), (sent (st_path (f t))). repeat split.
   - unfold sender_entries. rewrite sv_eq. apply in_map_iff. exists (f t). split; auto. apply in_map; auto.
   - rewrite (proj1 (f_shape t)), Efs. cbn [set_linkname st_linkname]. exact Ept.
   - rewrite (proj1 (f_shape t)), (proj1 (f_shape s)).
     pose proof fw_sorted as HS. unfold sorted in HS. rewrite El in HS.
     destruct (SS_app_inv _ _ _ _ HS) as [Hbefore _]. rewrite Forall_forall in Hbefore. apply (Hbefore t Ht).
-  - rewrite is_reg_f. exact Hregt.
+  - rewrite is_node_f. exact Hnt.
+  - rewrite !is_reg_f, Hregt. auto.
   - rewrite (proj1 (f_shape t)), (proj1 (f_shape s)).
-    rewrite (sent_eq t Htl) by (apply is_reg_not_dir; auto).
-    rewrite (sent_eq s Hs) by (apply is_reg_not_dir; auto).
+    rewrite (sent_eq t Htl) by (apply is_node_not_dir; auto).
+    rewrite (sent_eq s Hs) by (apply is_node_not_dir; auto).
     rewrite (proj1 (proj1 Hks)), (proj1 (proj1 Hkt)).
     rewrite (content_at_in _ _ Hss), (content_at_in _ _ Hts). symmetry. exact Eb.
 Qed.
